@@ -188,3 +188,48 @@ func sum(b []byte) tooldriver.FileSum {
 	h := sha256.Sum256(b)
 	return tooldriver.FileSum{Len: len(b), SHA: hex.EncodeToString(h[:8])}
 }
+
+func readEvidence(id string) *evidence {
+	b, err := os.ReadFile(filepath.Join(outDir, "evidence", id+".json"))
+	if err != nil {
+		return nil
+	}
+	var e evidence
+	if json.Unmarshal(b, &e) != nil {
+		return nil
+	}
+	return &e
+}
+
+// mergeEvidence writes one evidence file for a check that ran two passes
+// (plain build and race build): counts are added, the second pass's details
+// are kept under "race_pass".
+func mergeEvidence(id string, a, b *evidence) {
+	if a == nil || b == nil {
+		return
+	}
+	num := func(m map[string]any, k string) int {
+		switch v := m[k].(type) {
+		case float64:
+			return int(v)
+		case int:
+			return v
+		}
+		return 0
+	}
+	out := *a
+	out.WallS = a.WallS + b.WallS
+	out.Violations = a.Violations + b.Violations
+	cov := map[string]any{}
+	for k, v := range a.Coverage {
+		cov[k] = v
+	}
+	cov["evaluations"] = num(a.Coverage, "evaluations") + num(b.Coverage, "evaluations")
+	cov["distinct_nontrivial"] = num(a.Coverage, "distinct_nontrivial") + num(b.Coverage, "distinct_nontrivial")
+	cov["cases"] = num(a.Coverage, "cases") + num(b.Coverage, "cases")
+	cov["plain_pass"] = map[string]any{"cases": a.Coverage["cases"], "stats": a.Coverage["stats"], "evaluations": a.Coverage["evaluations"], "distinct_interleavings": a.Coverage["distinct_nontrivial"], "wall_s": a.WallS}
+	cov["race_pass"] = map[string]any{"cases": b.Coverage["cases"], "stats": b.Coverage["stats"], "evaluations": b.Coverage["evaluations"], "distinct_interleavings": b.Coverage["distinct_nontrivial"], "wall_s": b.WallS, "race_build": true}
+	cov["runs_per_hour"] = perHour(num(cov, "evaluations"), out.WallS)
+	out.Coverage = cov
+	writeEvidence(&out)
+}
